@@ -169,6 +169,7 @@ struct simfd {
 	unsigned char *tx;
 	size_t tx_len, tx_cap, tx_drained;
 	long wbudget, wcap;   /* -1 = unlimited */
+	int half_closed_by_daemon; /* shutdown(SHUT_WR) by the daemon */
 	int werr_errno;       /* hard write error ... */
 	long werr_after;      /* ... once this many further writev calls happened (-1: none) */
 	int blocked;          /* last write could not be taken completely */
@@ -573,6 +574,41 @@ int __wrap_accept(int fd, struct sockaddr *addr, socklen_t *len)
 		*len = c->peerlen;
 	}
 	return cfd;
+}
+
+int __wrap_accept4(int fd, struct sockaddr *addr, socklen_t *len, int flags)
+{
+	int cfd = __wrap_accept(fd, addr, len);
+	if (cfd >= 0 && (flags & SOCK_NONBLOCK)) fds[cfd].fl |= O_NONBLOCK;
+	return cfd;
+}
+
+int __real_getpeername(int fd, struct sockaddr *addr, socklen_t *len);
+int __wrap_getpeername(int fd, struct sockaddr *addr, socklen_t *len)
+{
+	if (!is_sim(fd)) return __real_getpeername(fd, addr, len);
+	struct simfd *c = live("getpeername", fd, K_STREAM);
+	if (!c) return -1;
+	socklen_t l = c->peerlen;
+	if (*len < l) l = *len;
+	memcpy(addr, &c->peer, l);
+	*len = c->peerlen;
+	return 0;
+}
+
+int __real_shutdown(int fd, int how);
+int __wrap_shutdown(int fd, int how)
+{
+	if (!is_sim(fd)) return __real_shutdown(fd, how);
+	struct simfd *c = live("shutdown", fd, K_STREAM);
+	if (!c) return -1;
+	if (how == SHUT_WR || how == SHUT_RDWR) {
+		/* the client sees the end of the daemon's stream; further writes fail like on a real socket */
+		c->werr_errno = EPIPE;
+		c->werr_after = 0;
+		c->half_closed_by_daemon = 1;
+	}
+	return 0;
 }
 
 static void scribble(unsigned char *p, size_t n)
